@@ -449,8 +449,9 @@ class Model:
                 if fi.cls is None or fi.parent is not None:
                     continue
                 cands = self._inline_candidates(fi, uses, known)
-                if cands:
-                    self._expand(fi, cands)
+                exprs = self._inline_expr_candidates(fi, uses, known, {id(c[1]) for c in cands})
+                if cands or exprs:
+                    self._expand(fi, cands, exprs)
                     changed = True
             if not changed:
                 break
@@ -468,6 +469,40 @@ class Model:
             if ci and f.attr in ci.methods and ci.methods[f.attr] is not fi:
                 return ci.methods[f.attr]
         return None
+
+    def _inline_expr_candidates(self, fi, uses, known, taken):
+        """`... self._helper(args) ...` anywhere in an expression, where the private helper consists of ONE return statement:
+        the returned expression stands in place of the call (`self._messageSize()` reads `len(self._getMessage(MAX_PORT))`)"""
+        res = []
+        for call in ast.walk(fi.node):
+            if not isinstance(call, ast.Call) or id(call) in taken:
+                continue
+            f = call.func
+            if not (isinstance(f, ast.Attribute) and dotted(f.value) == 'self' and f.attr.startswith('_') and not f.attr.endswith('__')
+                    and 1 <= uses.get(f.attr, 0) <= MAX_HELPER_USES + 2):
+                continue
+            if f.attr in known or f.attr.lstrip('_') in known:
+                continue
+            owner = call
+            while owner is not None and not isinstance(owner, FUNC_TYPES):
+                owner = getattr(owner, 'parent', None)
+            if owner is not fi.node:
+                continue
+            h = self._helper_for(fi, call)
+            if h is None or not isinstance(h.node, ast.FunctionDef) or h.node.decorator_list:
+                continue
+            body = [x for x in h.node.body if not (isinstance(x, ast.Expr) and isinstance(x.value, ast.Constant) and isinstance(x.value.value, str))]
+            if len(body) != 1 or not isinstance(body[0], ast.Return) or body[0].value is None:
+                continue
+            # only thin wrappers around another method of the object (`return len(self._getMessage(MAX_PORT))`): a helper that
+            # builds something itself is a unit the rules may look for by its role
+            if not any(isinstance(x, ast.Call) and isinstance(x.func, ast.Attribute) and dotted(x.func.value) == 'self' for x in ast.walk(body[0].value)):
+                continue
+            binding = self._bind(h.node, call)
+            if binding is None or not all(isinstance(a, (ast.Name, ast.Constant)) or (isinstance(a, ast.Attribute) and dotted(a)) for a in binding.values()):
+                continue
+            res.append((call, h, binding, body[0].value))
+        return res
 
     def _inline_candidates(self, fi, uses, known):
         res = []
@@ -579,7 +614,7 @@ class Model:
                 res[prm] = defaults[prm]
         return res
 
-    def _expand(self, fi, cands):
+    def _expand(self, fi, cands, exprs=()):
         mapping = {}
 
         def clone(node):
@@ -600,6 +635,26 @@ class Model:
         todo = {id(st): ((st.ifnode if isinstance(st, _IfCall) else st), call, h, binding, body, pre, (st.syn if isinstance(st, _IfCall) else None))
                 for st, call, h, binding, body, pre in cands}
         new_root = clone(fi.node)
+        if exprs:
+            repl = {}
+            for call, helper, binding, expr in exprs:
+                new = _clone_ast(expr)
+
+                class _Sub(ast.NodeTransformer):
+                    def visit_Name(self, node, binding=binding):
+                        if isinstance(node.ctx, ast.Load) and node.id in binding:
+                            return ast.copy_location(_clone_ast(binding[node.id]), node)
+                        return node
+                new = ast.fix_missing_locations(ast.copy_location(_Sub().visit(new), call))
+                if id(call) in mapping:
+                    repl[id(mapping[id(call)])] = new
+                    self.inlined.setdefault(fi.qualname, []).append(helper.qualname)
+
+            class _Repl(ast.NodeTransformer):
+                def visit_Call(self, node):
+                    self.generic_visit(node)
+                    return repl.get(id(node), node)
+            _Repl().visit(new_root)
 
         def rewrite(lst):
             out = []
